@@ -1364,6 +1364,93 @@ def _desugar_algorithm(s):
     return None
 
 
+def _quantifier(e):
+    """(name, container, lambda) when e is std::any_of / all_of / none_of(C.begin(), C.end(), [..](x) { return P; })"""
+    e = _unwrap(e)
+    if not isinstance(e, dict) or e.get('k') != 'CallExpr' or e.get('callee_name') not in ('std::any_of', 'std::all_of', 'std::none_of'):
+        return None
+    args = (e.get('c') or [])[1:]
+    if len(args) != 3:
+        return None
+    cont = _range_of(args[0], args[1])
+    lam = _unwrap(args[2])
+    if cont is None or not isinstance(lam, dict) or lam.get('k') != 'LambdaExpr' or len(lam.get('params') or ()) != 1 or not lam.get('c'):
+        return None
+    if _single_return_expr(lam['c'][0]) is None:
+        return None
+    return e.get('callee_name').rsplit('::', 1)[-1], cont, lam, e
+
+
+def _bool_lit(v, like):
+    return {'k': 'CXXBoolLiteralExpr', 'val': bool(v), 't': 'bool', 'c': [], 'loc': like.get('loc'), 'end': like.get('end')}
+
+
+def _not(e):
+    return {'k': 'UnaryOperator', 'op': '!', 'c': [e], 't': 'bool', 'loc': e.get('loc'), 'end': e.get('end')}
+
+
+def _search_loop(q, exit_stmt, negate_pred):
+    """for (x : C) if ([!]P(x)) EXIT"""
+    name, cont, lam, call = q
+    pred = _single_return_expr(lam['c'][0])
+    cond = _not(pred) if negate_pred else pred
+    iff = {'k': 'IfStmt', 'loc': call.get('loc'), 'end': call.get('end'), 'slots': {'cond': cond, 'then': exit_stmt}}
+    body = _params_as_locals({'k': 'CompoundStmt', 'c': [iff], 'loc': lam.get('loc')}, lam)
+    return {'k': 'CXXForRangeStmt', 'loc': call.get('loc'), 'end': call.get('end'), 'id': call.get('id'), 'normalised_from': 'std::' + name,
+            'slots': {'var': _lambda_param_var(lam), 'range': cont, 'body': body}}
+
+
+def _desugar_quantifier(s):
+    """statements whose value is a quantifier over a container are the search loop they stand for:
+         return std::all_of(C, P);        ->  for (x : C) if (!P(x)) return false;  return true;
+         return std::any_of(C, P);        ->  for (x : C) if (P(x)) return true;    return false;      (none_of: the two results swapped)
+         if (std::any_of(C, P)) EXIT;     ->  for (x : C) if (P(x)) EXIT;                              (EXIT a single return / throw, no else)
+         if (!std::all_of(C, P)) EXIT;    ->  for (x : C) if (!P(x)) EXIT;
+       Returns the list of statements, or None."""
+    k = s.get('k')
+    if k == 'ReturnStmt' and s.get('c'):
+        e = _unwrap(s['c'][0])
+        neg = False
+        while isinstance(e, dict) and e.get('k') == 'UnaryOperator' and e.get('op') == '!' and e.get('c'):
+            e, neg = _unwrap(e['c'][0]), not neg
+        q = _quantifier(e)
+        if q is None:
+            return None
+        name = q[0]
+        # value of the statement when the search hits / when it does not
+        hit_value = {'any_of': True, 'all_of': False, 'none_of': False}[name]
+        if neg:
+            hit_value = not hit_value
+        r1 = dict(s)
+        r1['c'] = [_bool_lit(hit_value, s)]
+        r2 = dict(s)
+        r2['c'] = [_bool_lit(not hit_value, s)]
+        r2['id'] = None
+        return [_search_loop(q, r1, negate_pred=(name == 'all_of')), r2]
+    if k == 'IfStmt' and (s.get('slots') or {}).get('else') is None and (s['slots'].get('init') is None) and s['slots'].get('condvar') is None:
+        e = _unwrap(s['slots'].get('cond'))
+        neg = False
+        while isinstance(e, dict) and e.get('k') == 'UnaryOperator' and e.get('op') == '!' and e.get('c'):
+            e, neg = _unwrap(e['c'][0]), not neg
+        q = _quantifier(e)
+        th = s['slots'].get('then')
+        t1 = th
+        while isinstance(t1, dict) and t1.get('k') == 'CompoundStmt' and len(t1.get('c') or ()) == 1:
+            t1 = t1['c'][0]
+        if q is None or not isinstance(t1, dict) or t1.get('k') not in ('ReturnStmt', 'CXXThrowExpr'):
+            return None
+        name = q[0]
+        # the then-branch runs when the condition holds: any_of -> on a hit of P; !all_of -> on a hit of !P; none_of / !any_of / all_of need the whole range
+        if (name == 'any_of' and not neg):
+            return [_search_loop(q, th, negate_pred=False)]
+        if (name == 'all_of' and neg):
+            return [_search_loop(q, th, negate_pred=True)]
+        if (name == 'none_of' and neg):
+            return [_search_loop(q, th, negate_pred=False)]
+        return None
+    return None
+
+
 def _lambda_of_decl(s):
     """(VarDecl, LambdaExpr) when s is `auto f = [..](..) { .. };`"""
     if s.get('k') != 'DeclStmt' or len(s.get('c') or ()) != 1 or s['c'][0].get('k') != 'VarDecl' or not isinstance(s['c'][0].get('init'), dict):
@@ -1425,63 +1512,87 @@ def desugar(body):
                 count[0] += 1
                 out.append(rewrite(a))
                 continue
+            qs = _desugar_quantifier(s) if isinstance(s, dict) else None
+            if qs is not None:
+                count[0] += 1
+                out.extend(qs)
+                continue
             out.append(s)
         if lambdas:
+            decl_stmts = {id(v[0]) for v in lambdas.values()}
+
+            def stmt_call(x):
+                """the block that the statement `f(args);` stands for, else None"""
+                if not isinstance(x, dict):
+                    return None
+                u = _unwrap(x)
+                for dloc, (ds, vd, lam) in lambdas.items():
+                    args = _lambda_call(u, dloc) if isinstance(u, dict) else None
+                    if args is not None:
+                        b2 = inline_stmt(lam, args)
+                        if b2 is not None:
+                            count[0] += 1
+                            return b2
+                return None
+
+            def deep(n):
+                if not isinstance(n, dict):
+                    return n
+                if n.get('k') == 'LambdaExpr':
+                    return n
+                # expression level first: one-`return` lambdas where they are called, the lambda itself where its name is handed to an algorithm
+                for dloc, (ds, vd, lam) in lambdas.items():
+                    args = _lambda_call(n, dloc)
+                    if args is not None:
+                        e = _single_return_expr(lam['c'][0])
+                        ps = lam_param_dicts(lam)
+                        if e is not None and len(ps) == len(args):
+                            count[0] += 1
+                            return _param_subst(e, ps, [deep(a) for a in args])
+                o = dict(n)
+                if n.get('k') in ('CallExpr', 'CXXMemberCallExpr') and (n.get('callee_name') or '').startswith('std::') and n.get('c'):
+                    c2 = []
+                    for a in n['c']:
+                        u = _unwrap(a)
+                        hit = None
+                        for dloc, (ds, vd, lam) in lambdas.items():
+                            if _is_ref(u, dloc):
+                                hit = lam
+                        if hit is not None:
+                            count[0] += 1
+                            c2.append(hit)
+                        else:
+                            c2.append(deep(a))
+                    o['c'] = c2
+                elif n.get('c'):
+                    cs2 = []
+                    for c in n['c']:
+                        if n.get('k') == 'CompoundStmt':
+                            b2 = stmt_call(c)
+                            if b2 is not None:
+                                cs2.append(deep(b2))
+                                continue
+                        cs2.append(deep(c))
+                    o['c'] = cs2
+                if isinstance(n.get('init'), dict):
+                    o['init'] = deep(n['init'])
+                if n.get('slots'):
+                    sl = {}
+                    for key, v in n['slots'].items():
+                        if isinstance(v, dict) and key in ('then', 'else', 'body'):
+                            b2 = stmt_call(v)
+                            sl[key] = deep(b2) if b2 is not None else deep(v)
+                        else:
+                            sl[key] = deep(v) if isinstance(v, dict) else v
+                    o['slots'] = sl
+                return o
             res = []
             for s in out:
-                done = False
-                for dloc, (ds, vd, lam) in lambdas.items():
-                    if s is ds:
-                        continue
-                    args = _lambda_call(_unwrap(s), dloc) if isinstance(s, dict) else None
-                    if args is not None:
-                        b = inline_stmt(lam, args)
-                        if b is not None:
-                            count[0] += 1
-                            res.append(rewrite(b))
-                            done = True
-                            break
-                if done:
-                    continue
-                if any(s is v[0] for v in lambdas.values()):
+                if id(s) in decl_stmts:
                     res.append(s)
                     continue
-                # expression-level: single-return lambdas; the lambda itself where its name is an argument
-                def fn(x):
-                    for dloc, (ds, vd, lam) in lambdas.items():
-                        args = _lambda_call(x, dloc)
-                        if args is not None:
-                            e = _single_return_expr(lam['c'][0])
-                            ps = lam_param_dicts(lam)
-                            if e is not None and len(ps) == len(args):
-                                count[0] += 1
-                                return _param_subst(e, ps, [_replace(a, fn) for a in args])
-                    return None
-                s2 = _replace(s, fn) if s not in [v[0] for v in lambdas.values()] else s
-
-                def fn2(x):
-                    if x.get('k') in ('CallExpr', 'CXXMemberCallExpr') and (x.get('callee_name') or '').startswith('std::'):
-                        changed = False
-                        c2 = []
-                        for a in x.get('c') or ():
-                            u = _unwrap(a)
-                            hit = None
-                            for dloc, (ds, vd, lam) in lambdas.items():
-                                if _is_ref(u, dloc):
-                                    hit = lam
-                            if hit is not None:
-                                c2.append(hit)
-                                changed = True
-                                count[0] += 1
-                            else:
-                                c2.append(_replace(a, fn2))
-                        if changed:
-                            y = dict(x)
-                            y['c'] = c2
-                            return y
-                    return None
-                s2 = _replace(s2, fn2)
-                res.append(s2)
+                b2 = stmt_call(s)
+                res.append(deep(b2) if b2 is not None else deep(s))
             # a lambda local that nobody refers to any more is gone
             final = []
             for s in res:
